@@ -76,7 +76,6 @@ func (pe *PolicyEngine) allowedXgressConnection(src, dst k8s.Peer, isIngress boo
 		return false, err
 	}
 	if !passOrNonCaptured { // i.e the connection is captured by the adminNetworkPolicies and definitely is either allowed or denied
-		pe.cache.addConnectionResult(src, dst, protocol, port, anpRes)
 		return anpRes, nil
 	}
 	// else pass == true : means that:
@@ -90,7 +89,6 @@ func (pe *PolicyEngine) allowedXgressConnection(src, dst k8s.Peer, isIngress boo
 	// if the src/dst was captured by the relevant xgress policies, then the connection is
 	// definitely allowed or denied by the policy rules (either explicitly or implicitly)
 	if captured {
-		pe.cache.addConnectionResult(src, dst, protocol, port, netpolRes)
 		return netpolRes, nil
 	}
 	// else !captured : means that the xgress connection will be determined by the baseline-admin-network-policy,
@@ -99,7 +97,6 @@ func (pe *PolicyEngine) allowedXgressConnection(src, dst k8s.Peer, isIngress boo
 	if err != nil {
 		return false, err
 	}
-	pe.cache.addConnectionResult(src, dst, protocol, port, defaultRes)
 	return defaultRes, nil
 }
 
